@@ -141,6 +141,19 @@ impl Property for C08 {
             ops.push(Op::Probe { xa, xk, ya, yk, same: rng.chance(1, 5), empty_fp: rng.chance(1, 2) });
         }
         ops.push(Op::Session);
+        if rng.chance(1, 12) {
+            // long keys: every key behind a common 255-byte prefix
+            for o in ops.iter_mut() {
+                match o {
+                    Op::Put { key, .. } | Op::Foreign { key, .. } => *key = crate::c02::long_key(key),
+                    Op::Probe { xk, yk, .. } => {
+                        *xk = crate::c02::long_key(xk);
+                        *yk = crate::c02::long_key(yk);
+                    }
+                    _ => {}
+                }
+            }
+        }
         ops
     }
     fn execute(&self, ops: &[Op]) -> anyhow::Result<Vec<Line>> {
